@@ -15,13 +15,21 @@ C05, C11 and C13):
   harness (a Go map has no iteration order); array traversal is in array order.
 * `lookup` takes the first binding of a key (the data of interest has unique keys).
 * An index `i < 0` counts from the end (`i + n`); an index outside `0 ≤ · < n` selects nothing.
-* Slice `[s:e:t]` on an array of length `n`: absent `s` is `0`, absent `t` is `1`, an absent `e` is
-  "beyond the end" **whatever the sign of the step** (so `[::-1]` selects nothing: its walk starts at
-  index 0 and the end is above it); `t = 0` selects nothing; a negative `s` or `e` counts from the end;
-  a start that is still negative becomes `0`; **a start at or beyond `n` selects nothing** (also for a
-  negative step); an end beyond `n` is `n`; for a negative step an end below `-1` is `-1`. Then the
-  indexes are `start, start+t, start+2t, …` as long as they are before the end in the direction of
-  travel (`< end` for `t > 0`, `> end` for `t < 0`). Start inclusive, end exclusive.
+* Slice `[s:e:t]`. ojg does not document a reading of its own: `jp/expr.go` refers to Goessner's article
+  ("array slice operator borrowed from ES4"), the README to the IETF JSONPath document, now RFC 9535, and the
+  CHANGELOG makes the end exclusive "as called for in the Goessner description and the consensus". The
+  **documented semantics is therefore RFC 9535 §2.3.4.2**, transcribed below from the RFC's pseudo-code as
+  `rfcSliceIdx` (Normalize, Bounds, the two loops; the default start and end depend on the sign of the step, so
+  `[::-1]` reverses the array) — `selRfc`/`evalRfc` are the denotation with it, and that is what C05 judges
+  Get against.
+  `sliceIdx` (and `sel`/`eval` over it) is **the reading the code implements**: the same for every step ≥ 0 and
+  for a negative step with an explicit end and an explicit start inside `-n ≤ start < n`
+  (`sliceIdx_eq_rfc_pos`, `sliceIdx_eq_rfc_neg` in JPath/LemmasRfc.lean); for a negative step it differs where
+  the end is absent (ojg: "beyond the end", so nothing is selected; RFC: down to index 0), where the start is
+  absent (ojg: 0; RFC: the last index), where the start is at or beyond `n` (ojg: nothing; RFC: from the last
+  index) and where it is below `-n` (ojg: from index 0; RFC: nothing). That difference is the known finding
+  C05-slice-negative-step. `sliceIdx`/`sel`/`eval` are kept because the mutation family (C13) and the
+  agreement theorems of C11 are stated over them.
 * Union: the members in the listed order (a member that does not exist contributes nothing, a member
   listed twice contributes twice).
 * Recursive descent selects the node itself and every value below it. Order (*choice*): the members'
@@ -100,7 +108,8 @@ def selMember (v : JV) : Member → List (Path × JV)
 /-- `a, a+d, a+2d, …` (`n` terms) -/
 def progression (n : Nat) (a d : Int) : List Int := (List.range n).map fun (k : Nat) => a + (k : Int) * d
 
-/-- the indexes a slice selects in an array of length `n`, in selection order -/
+/-- the indexes a slice selects in an array of length `n`, in selection order — **in the reading the code
+implements** (see the header; the documented semantics is `rfcSliceIdx` below) -/
 def sliceIdx (n : Nat) (s e t : Option Int) : List Nat :=
   let step := t.getD 1
   let s0 := s.getD 0
@@ -159,6 +168,66 @@ def eval : List Frag → JV → List (Path × JV)
 
 /-- the selected elements without their locations -/
 def evalV (x : List Frag) (v : JV) : List JV := (eval x v).map (·.2)
+
+/-! ## Slices as documented: RFC 9535 §2.3.4.2 (transcribed from the RFC, not from the code) -/
+
+/-- `Normalize(i, len)` -/
+def rfcNormalize (i : Int) (len : Nat) : Int := if 0 ≤ i then i else (len : Int) + i
+
+/-- `Bounds(start, end, step, len)` = (lower, upper) -/
+def rfcBounds (start stop step : Int) (len : Nat) : Int × Int :=
+  let nStart := rfcNormalize start len
+  let nEnd := rfcNormalize stop len
+  if 0 ≤ step then (min (max nStart 0) len, min (max nEnd 0) len)
+  else (min (max nEnd (-1)) ((len : Int) - 1), min (max nStart (-1)) ((len : Int) - 1))
+
+/-- the indexes `[start:end:step]` selects in an array of length `len`, in selection order: step 0 selects
+nothing; the default start is 0 and the default end `len` for a step ≥ 0, `len - 1` and `-len - 1` for a
+negative step; then `i = lower; while i < upper: select i; i += step` for a positive step and
+`i = upper; while lower < i: select i; i += step` for a negative one -/
+def rfcSliceIdx (len : Nat) (s e t : Option Int) : List Nat :=
+  let step := t.getD 1
+  if step = 0 then []
+  else
+    let start := s.getD (if 0 ≤ step then 0 else (len : Int) - 1)
+    let stop := e.getD (if 0 ≤ step then (len : Int) else -(len : Int) - 1)
+    let b := rfcBounds start stop step len
+    if 0 < step then ((progression len b.1 step).takeWhile fun i => i < b.2).map Int.toNat
+    else ((progression len b.2 step).takeWhile fun i => b.1 < i).map Int.toNat
+
+/-- RFC 9535 Table 9 and the cases the reviewer of this specification asked for, on `["a",…]` of length 3 resp. 7 -/
+example : rfcSliceIdx 7 (some 1) (some 3) none = [1, 2] ∧ rfcSliceIdx 7 (some 5) none none = [5, 6] ∧
+    rfcSliceIdx 7 (some 1) (some 5) (some 2) = [1, 3] ∧ rfcSliceIdx 7 (some 5) (some 1) (some (-2)) = [5, 3] ∧
+    rfcSliceIdx 7 none none (some (-1)) = [6, 5, 4, 3, 2, 1, 0] := by decide
+
+example : rfcSliceIdx 3 none none (some (-1)) = [2, 1, 0] ∧          -- `[::-1]` reverses
+    rfcSliceIdx 3 (some 5) (some 0) (some (-1)) = [2, 1] ∧           -- `[5:0:-1]`: from the last index
+    rfcSliceIdx 3 (some (-1)) (some (-4)) (some (-1)) = [2, 1, 0] ∧  -- `[-1:-4:-1]`
+    rfcSliceIdx 3 (some 1) (some 1) none = [] ∧                      -- `[1:1]`: empty
+    rfcSliceIdx 3 none none (some 0) = [] ∧                          -- `[::0]`: nothing
+    rfcSliceIdx 3 (some 2) none (some (-1)) = [2, 1, 0] ∧            -- `[2::-1]`
+    rfcSliceIdx 3 (some (-5)) (some (-9)) (some (-1)) = [] := by decide
+
+/-- the same cases in the reading the code implements: the first, second and the last two differ -/
+example : sliceIdx 3 none none (some (-1)) = [] ∧ sliceIdx 3 (some 5) (some 0) (some (-1)) = [] ∧
+    sliceIdx 3 (some (-1)) (some (-4)) (some (-1)) = [2, 1, 0] ∧ sliceIdx 3 (some 1) (some 1) none = [] ∧
+    sliceIdx 3 none none (some 0) = [] ∧ sliceIdx 3 (some 2) none (some (-1)) = [] ∧
+    sliceIdx 3 (some (-5)) (some (-9)) (some (-1)) = [0] := by decide
+
+/-- what one fragment selects, as documented (differs from `sel` in the slice case only) -/
+def selRfc : Frag → JV → List (Path × JV)
+  | .slice s e t, v =>
+    match v with
+    | .arr xs => (rfcSliceIdx xs.length s e t).flatMap fun j => (xs[j]?).toList.map fun c => ([.idx j], c)
+    | _ => []
+  | f, v => sel f v
+
+/-- **what a path selects, as documented** -/
+def evalRfc : List Frag → JV → List (Path × JV)
+  | [], v => [([], v)]
+  | f :: r, v => (selRfc f v).flatMap fun m => (evalRfc r m.2).map fun q => (m.1 ++ q.1, q.2)
+
+def evalVRfc (x : List Frag) (v : JV) : List JV := (evalRfc x v).map (·.2)
 
 /-- the fragment that addresses one location step -/
 def Loc.toFrag : Loc → Frag
